@@ -36,6 +36,9 @@ LIBRARY = [
     ['class Acc:', '    def __init__(self):', '        self.total = 0', '    def add(self, n):', '        self.total += n',
      '        return self.total'],
     ['acc_add = Acc().add'],
+    # input() reached through a name bound in an EARLIER execution
+    ['read = input'],
+    ['def ask_alias(p):', '    v = read(p)', "    print('alias', v)", '    return v'],
     # results that instructors pass on to another call: an ordinary object, and one whose repr is broken
     ['def make_acc(n):', '    a = Acc()', '    a.add(n)', '    return a'],
     ['def use_acc(a):', "    return type(a).__name__ + ':' + ','.join([str(a.total + 1), 'y']) + ':' + str(isinstance(a, Acc))"],
@@ -50,7 +53,7 @@ LIB_FUNCS = {
     'chatty': ['small'], 'noeol': ['str'], 'blank': [], 'swallow': ['int0'], 'writer': ['str'],
     'size': ['seq'], 'ident': ['any'], 'mutate': ['list'], 'tick': [], 'kw': ['int'], 'init_state': ['int'], 'read_state': [],
     'biggest': ['int', 'int'], 'add_ten': ['int'], 'cached_sq': ['small'], 'acc_add': ['int'],
-    'make_acc': ['int'],
+    'make_acc': ['int'], 'ask_alias': ['prompt'],
 }
 # (consumer, producer): the consumer is called with what an earlier call of the producer returned
 RESULT_CHAINS = [('use_acc', 'make_acc'), ('use_grumpy', 'make_grumpy'), ('ident', 'make_acc'), ('size', 'mutate')]
@@ -151,6 +154,8 @@ def gen_history(rngs, n_ops, fault_rate=0.3, fault_classes=None, io_ops=True, si
             if fn in ('echo', 'ident', 'size') and r.random() < 0.2:
                 # pass one of the student's own variables by name instead of a value
                 op['args_locals'] = [r.choice(['counter', 'sys.argv[:0]', 'str(counter)', '[counter, counter]'])]
+            if fn in ('quiet', 'biggest') and r.random() < 0.25:
+                op['args_locals'] = r.choice([['counter'], [None, 'counter'], ['counter', 'counter + 1']])
             if fn == 'kw' and r.random() < 0.6:
                 c2 = r.random()
                 if c2 < 0.6:
